@@ -161,7 +161,7 @@ pub fn rare_keygen_seeds_mode(ctx: &Ctx, p: &refimpl::Params, n_scan: usize, cte
     use crate::util::{par_map, unhex, Prng};
     let work = ctx.fixtures.parent().map_or_else(|| std::path::PathBuf::from("/verif"), |x| x.to_path_buf()).join("target").join("work");
     let _ = std::fs::create_dir_all(&work);
-    let cache = work.join(format!("rare-keygen{}-{}-{}-{}.json", if ctest { "-ctest" } else { "" }, p.set, ctx.seed, n_scan));
+    let cache = work.join(format!("rare-keygen-v2{}-{}-{}-{}.json", if ctest { "-ctest" } else { "" }, p.set, ctx.seed, n_scan));
     if let Ok(text) = std::fs::read_to_string(&cache) {
         if let Ok(v) = serde_json::from_str::<Value>(&text) {
             if let Some(a) = v.as_array() {
@@ -193,7 +193,7 @@ pub fn rare_keygen_seeds_mode(ctx: &Ctx, p: &refimpl::Params, n_scan: usize, cte
         out
     });
     let mut all: Vec<RareSeed> = found.into_iter().flatten().collect();
-    // second, much cheaper scan (SHAKE only) for sampler-length events: a RejBoundedPoly call that needs
+    // second, much cheaper scan (SHAKE only) for sampler events: three consecutive rejections inside one RejNTTPoly call (about 1 key in 10^5), a RejBoundedPoly call that needs
     // more than two SHAKE256 blocks (272 bytes; eta = 4 only, about 1 key in 13000) or a RejNTTPoly call
     // that needs more than five SHAKE128 blocks (840 bytes)
     let n_cheap = n_scan * 16;
@@ -206,10 +206,21 @@ pub fn rare_keygen_seeds_mode(ctx: &Ctx, p: &refimpl::Params, n_scan: usize, cte
             refimpl::events_reset();
             refimpl::set_ctest(ctest);
             let _ = refimpl::expand_s(p, &seed[32..96]);
+            let _ = refimpl::expand_a(p, &seed[..32]);
             refimpl::set_ctest(false);
             let e = refimpl::events_take();
+            let mut tags = Vec::new();
             if e.rbp_max_bytes > 272 {
-                out.push(RareSeed { xi, tags: vec!["rbp-over-2-blocks".to_string()] });
+                tags.push("rbp-over-2-blocks".to_string());
+            }
+            if e.rnp_max_reject_run >= 3 {
+                tags.push("rnp-reject-run-3".to_string());
+            }
+            if e.rnp_max_bytes > 840 {
+                tags.push("rnp-over-5-blocks".to_string());
+            }
+            if !tags.is_empty() {
+                out.push(RareSeed { xi, tags });
             }
         }
         out
